@@ -43,8 +43,7 @@ for p in patches:
     h = sh("git", "-C", REPO, "rev-parse", "--short", "HEAD").stdout.strip()
     print("applied", os.path.basename(p), "->", h, "|", msg.split("\n")[0])
     done[slug] = h
-kf = os.path.join(ROOT, "known", pid + ".jsonl")
-if done and os.path.exists(kf):
+for kf in sorted(glob.glob(os.path.join(ROOT, "known", pid + "*.jsonl"))) if done else []:
     out = []
     for l in open(kf):
         if l.strip() and not l.startswith("#"):
